@@ -34,7 +34,7 @@ rm -f /tmp/wt/intake-$name.with /tmp/wt/intake-$name.without
 mkdir -p $d; cp $src/patch.diff $src/demo_test.go $src/meta.json $d/
 python3 - "$d/meta.json" "$head" "$race" <<'PY'
 import json,sys
-m=json.load(open(sys.argv[1])); m['round']=5
+m=json.load(open(sys.argv[1])); m["round"]=int(__import__("os").environ.get("ROUND","6"))
 m['confirmed_by_me']={'base_commit':sys.argv[2],'suite_with_change':'all packages ok (go test -vet=off -count=1 ./...)','demo_with_change':'FAIL','demo_without_change':'PASS','demo_flags':sys.argv[3]}
 json.dump(m,open(sys.argv[1],'w'),indent=1)
 PY
